@@ -336,7 +336,7 @@ def run(ctx):
     c19.rule_fresh_writer(ctx, R="C05/blamed-thread-from-new")
     # the supplied crash context is what every dump from this writer attributes the crash to (same rule instance as C19/config-preserved)
     from rules import c19 as _c19
-    _c19.rule_config_preserved(ctx, R="C05/options-kept", only=("crash_context",))
+    _c19.rule_config_preserved(ctx, R="C05/options-kept", only=("crash_context", "blamed_thread", "process_id"))
     # the stream is attempted in every dump: its writer is on every success path of generate_dump (same rule instance as C01/every-stream-attempted)
     from rules import c01 as _c01
     _c01.rule_stream_attempted(ctx, R="C05/stream-attempted", only=("exception_stream::write",))
